@@ -604,6 +604,15 @@ func runC15Op(c Case, m *Model) (v Verdict) {
 		if len(msg) < 70000 {
 			retain("a meta constructor", msg)
 		}
+		if len(msg) < 5000 {
+			var np string
+			if p := try(func() { np = smfNilSubsets(smf.Message(msg)) }); p != "" {
+				np = "an accessor called with nil out parameters panics: " + p
+			}
+			if np != "" {
+				oracle("%s (message % X)", np, c15Head(msg, 24))
+			}
+		}
 		t, d, ok := specParseMeta(msg)
 		if !ok || t != typ || len(d) != size {
 			oracle("constructor output is not a well-formed FF %02X <len=%d> event: % X", typ, size, c15Head(msg, 24))
